@@ -47,11 +47,48 @@ def main():
                      seed=cfg["seed"], checkpointing=False, signal_handling=False,
                      flow_config={"n_blocks": 2, "n_neurons": 8}, training_config={"max_epochs": 15, "patience": 5},
                      **kw)
-    out = {"ins": ins}
     run_kw = dict(cfg.get("run_kwargs", {}))
     fs.run(plot=False, save=bool(cfg.get("save", True)), **run_kw)
     ns = fs.ns
     flt = lambda a: [float(v) for v in np.asarray(a, dtype=float).ravel()]
+    first = collect(cfg, fs, ns, model, ins, run_kw, flt)
+    # Reading is not writing: touch every public property of the sampler, its evidence state(s) and the FlowSampler,
+    # then collect everything again.  The second collection is the one that is checked; `unstable` lists the fields
+    # whose reported value changed merely because something was read.
+    touched = 0
+    objs = [ns, fs, getattr(ns, "state", None), getattr(getattr(ns, "training_samples", None), "state", None),
+            getattr(getattr(ns, "iid_samples", None), "state", None)]
+    for _ in range(2):
+        for o in objs:
+            if o is None:
+                continue
+            for name in dir(type(o)):
+                if name.startswith("_") or not isinstance(getattr(type(o), name, None), property):
+                    continue
+                try:
+                    getattr(o, name)
+                    touched += 1
+                except Exception:
+                    pass
+    out = collect(cfg, fs, ns, model, ins, run_kw, flt)
+    out["unstable"] = sorted(diff_keys(first, out))
+    out["touched"] = touched
+    json.dump(out, sys.stdout)
+
+
+def diff_keys(a, b, prefix=""):
+    ks = set()
+    for k in set(a) | set(b):
+        va, vb = a.get(k), b.get(k)
+        if isinstance(va, dict) and isinstance(vb, dict):
+            ks |= diff_keys(va, vb, prefix + str(k) + ".")
+        elif repr(va) != repr(vb):
+            ks.add(prefix + str(k))
+    return ks
+
+
+def collect(cfg, fs, ns, model, ins, run_kw, flt):
+    out = {"ins": ins}
     out["fs"] = {"logZ": float(fs.logZ), "logZ_error": float(fs.logZ_error),
                  "n_nested": int(len(fs.nested_samples)), "nested_logL": flt(fs.nested_samples["logL"])}
     try:
@@ -101,7 +138,7 @@ def main():
                 "logL": None if d["samples"] is None else flt(d["samples"]["logL"]),
                 "logW": None if d["samples"] is None else flt(d["samples"]["logW"]),
             }
-    json.dump(out, sys.stdout)
+    return out
 
 
 if __name__ == "__main__":
